@@ -62,7 +62,7 @@ for label, G in subjects:
     # ---------------- directions
     vs = []
     for _ in range(NRAND):
-        vs.append(("random", np.array(rand_vec(R)) * R.choice([1.0, 0.01, 37.0])))
+        vs.append(("random", np.array(rand_vec(R)) * R.choice([1.0, 0.01, 37.0, 1e-10, 3e-7])))
     for n in N:
         nn = unit(n)
         for _ in range(3):
